@@ -44,26 +44,26 @@ def sset(xs): return "{" + ", ".join(str(x) for x in xs) + "}"
 def strset(xs): return "{" + ", ".join('"%s"' % x for x in xs) + "}"
 
 
-def tun_cfg(name, senders=(1,), maxin=99, faults=ALLF, copies=2, sizes=(0, 1, 2, 3), msgs=2, H=1, mtu=2, idspace=8, firstid=7,
+def tun_cfg(name, senders=(1,), maxin=99, faults=ALLF, copies=2, batch=1, sizes=(0, 1, 2, 3), msgs=2, H=1, mtu=2, idspace=8, firstid=7,
             modes=ALLM, dev=(), record=False, hist=False, invs=(), props=(), spec="Spec"):
     p = os.path.join(vlib.SPEC, FAM, name)
     with open(p, "w") as f:
-        f.write("SPECIFICATION %s\nCONSTANTS\n  Senders = %s\n  MaxIn = %d\n  Faults = %s\n  MaxCopies = %d\n  Sizes = %s\n  MaxMsgs = %d\n  H = %d\n  MTUs = %s\n"
+        f.write("SPECIFICATION %s\nCONSTANTS\n  Senders = %s\n  MaxIn = %d\n  Faults = %s\n  MaxCopies = %d\n  MaxBatch = %d\n  Sizes = %s\n  MaxMsgs = %d\n  H = %d\n  MTUs = %s\n"
                 "  IDSPACE = %d\n  FirstID = %d\n  OutModes = %s\n  Deviations = %s\n  RECORD = %s\n  HIST = %s\n" %
-                (spec, sset(senders), maxin, faults, copies, sset(sizes), msgs, H, sset(mtu if isinstance(mtu, (tuple, list, range)) else (mtu,)), idspace, firstid, modes, strset(dev),
+                (spec, sset(senders), maxin, faults, copies, batch, sset(sizes), msgs, H, sset(mtu if isinstance(mtu, (tuple, list, range)) else (mtu,)), idspace, firstid, modes, strset(dev),
                  "TRUE" if record else "FALSE", "TRUE" if hist else "FALSE"))
         if invs: f.write("INVARIANTS " + " ".join(invs) + "\n")
         if props: f.write("PROPERTIES " + " ".join(props) + "\n")
     return name
 
 
-def mini_cfg(name, senders=(1,), faults=ALLF, copies=2, sizes=(0, 10, 20), msgs=2, PH=12, CH=4, mtu=40, pidspace=4, firstpid=3, levels=(0, 6),
+def mini_cfg(name, senders=(1,), faults=ALLF, copies=2, batch=1, sizes=(0, 10, 20), msgs=2, PH=12, CH=4, mtu=40, pidspace=4, firstpid=3, levels=(0, 6),
              modes=ALLM, comp=True, dev=(), record=False, hist=False, invs=(), props=()):
     p = os.path.join(vlib.SPEC, FAM, name)
     with open(p, "w") as f:
-        f.write("SPECIFICATION Spec\nCONSTANTS\n  Senders = %s\n  MaxIn = 0\n  Faults = %s\n  MaxCopies = %d\n  Sizes = %s\n  MaxMsgs = %d\n  PH = %d\n  CH = %d\n  MTUs = %s\n"
+        f.write("SPECIFICATION Spec\nCONSTANTS\n  Senders = %s\n  MaxIn = 0\n  Faults = %s\n  MaxCopies = %d\n  MaxBatch = %d\n  Sizes = %s\n  MaxMsgs = %d\n  PH = %d\n  CH = %d\n  MTUs = %s\n"
                 "  PIDSPACE = %d\n  FirstPID = %d\n  Levels = %s\n  OutModes = %s\n  Compressible = %s\n  Deviations = %s\n  RECORD = %s\n  HIST = %s\n" %
-                (sset(senders), faults, copies, sset(sizes), msgs, PH, CH, sset(mtu if isinstance(mtu, (tuple, list, range)) else (mtu,)), pidspace, firstpid, sset(levels), modes, "TRUE" if comp else "FALSE", strset(dev),
+                (sset(senders), faults, copies, batch, sset(sizes), msgs, PH, CH, sset(mtu if isinstance(mtu, (tuple, list, range)) else (mtu,)), pidspace, firstpid, sset(levels), modes, "TRUE" if comp else "FALSE", strset(dev),
                  "TRUE" if record else "FALSE", "TRUE" if hist else "FALSE"))
         if invs: f.write("INVARIANTS " + " ".join(invs) + "\n")
         if props: f.write("PROPERTIES " + " ".join(props) + "\n")
@@ -110,7 +110,7 @@ def _run(v, tier, seed):
     W = lambda n: vlib.scratch("C12", n)
     tok = Tokens(8)
     tot = {"states": 0, "transitions": 0, "mc_runs": 0, "reach": 0, "gen_states": 0, "gen_edges": 0, "behaviours": 0, "replays": 0, "followed": 0, "drifted": 0,
-           "steps": 0, "packets": 0, "deliveries": 0, "compressed": 0, "clause2": 0, "sim_behaviours": 0, "split_perfect": 0, "split_faulty": 0}
+           "steps": 0, "packets": 0, "deliveries": 0, "compressed": 0, "clause2": 0, "sim_behaviours": 0, "split_perfect": 0, "split_faulty": 0, "multi_source": 0}
     samples = []; mc_notes = []; gen_notes = []; infos = []
 
     T0 = time.time(); timing = bool(os.environ.get("C12_TIMING"))
@@ -267,6 +267,9 @@ def _run(v, tier, seed):
         gen_tun("u24_msg_m4", ["msg", "none"], 24, mtu=4, sizes=(2, 3, 5), msgs=2)
         # several senders distinguished by source address: the two differ in the host only (u24_2s) / in the port only (u24_2sb)
         gen_tun("u24_2s", ["exact", "msg"], 24, senders=(1, 2), mtu=2, sizes=(2,), msgs=1, modes='{"all"}')
+        # several packets of several senders read by ONE DoInput() call (MaxBatch > 1): both senders use the same message ids and sizes
+        gen_tun("u24_2s_batch", ["exact", "msg"], 24, senders=(1, 2), mtu=2, sizes=(2,), msgs=1, batch=3, modes='{"all"}')
+        gen_tun("u24_2s_batch_perfect", ["exact", "none"], 24, perfect=True, addrmode=1, senders=(1, 2), mtu=3, sizes=(2, 4), msgs=1, batch=3, modes='{"all"}')
         gen_tun("u24_2sb", ["exact"], 24, addrmode=1, senders=(1, 2), mtu=3, sizes=(0, 3), msgs=2 if not quick else 1, copies=1 if not quick else 2, modes='{"all"}')
         # receiver limit: an over-limit Message shares packets with Messages that fit (the circumstances of repaired F31)
         gen_tun("u24_lim", ["exact", "raw"], 24, maxin=2, mtu=5, sizes=(1, 2, 3), msgs=3 if not quick else 2, modes='{"all"}')
@@ -286,7 +289,7 @@ def _run(v, tier, seed):
         gen_mini("mini_msg", ["msg", "none"], 1, perfect=True, sizes=(50, 70, 110), mtu=140, msgs=3, comp=False, levels=(0,))
         gen_mini("mini_msg_lossy", ["msg", "none"], 1, sizes=(50, 80), mtu=120, msgs=2, comp=False, levels=(0,), modes='{"all"}')
         gen_mini("mini_drop", ["exact", "raw"], 1, perfect=True, sizes=(1, 84, 85), mtu=100, msgs=3, comp=False, levels=(0,), modes='{"all"}')
-        gen_mini("mini_2s", ["exact"], 1, senders=(1, 2), sizes=(0, 60), mtu=100, msgs=1 if quick else 2, comp=True, levels=(6,), modes='{"all"}', copies=2 if quick else 1)
+        gen_mini("mini_2s", ["exact"], 1, senders=(1, 2), sizes=(0, 60), mtu=100, msgs=1 if quick else 2, comp=True, levels=(6,), modes='{"all"}', copies=2 if quick else 1, batch=2)
 
         # thorough: -simulate behaviours of deeper instances
         S = []
@@ -376,6 +379,7 @@ def _run(v, tier, seed):
         jobs_mc.append(ex.submit(mc, "TunImpl", tun_cfg("gen_MC_lossy_m2s.cfg", mtu=2, msgs=2, dev=dev_tun, invs=TUN_INVS, props=["AbsRefines"]), "TunImpl lossy MTU=2 2 Messages all DoOutput modes"))
         if not quick: jobs_mc.append(ex.submit(mc, "TunImpl", tun_cfg("gen_MC_lossy_modes.cfg", mtu=3, msgs=3 if not quick else 2, dev=dev_tun, invs=TUN_INVS, props=["AbsRefines"]), "TunImpl lossy MTU=3 all DoOutput modes"))
         if not quick: jobs_mc.append(ex.submit(mc, "TunImpl", tun_cfg("gen_MC_lossy_2s.cfg", senders=(1, 2), sizes=(1, 2), mtu=2, msgs=2 if not quick else 1, modes='{"all"}', dev=dev_tun, invs=TUN_INVS, props=["AbsRefines"]), "TunImpl lossy two senders"))
+        jobs_mc.append(ex.submit(mc, "TunImpl", tun_cfg("gen_MC_lossy_2s_batch.cfg", senders=(1, 2), sizes=(1, 2), mtu=2, msgs=1, batch=3, modes='{"all"}', dev=dev_tun, invs=TUN_INVS, props=["AbsRefines"]), "TunImpl lossy two senders, up to 3 packets per DoInput call"))
         jobs_mc.append(ex.submit(mc, "TunImpl", tun_cfg("gen_MC_lossy_2sb.cfg", senders=(1, 2), sizes=(0, 2), mtu=2, msgs=2, copies=1, modes='{"all"}', dev=dev_tun, invs=TUN_INVS, props=["AbsRefines"]), "TunImpl lossy two senders 2 Messages each"))
         jobs_mc.append(ex.submit(mc, "TunImpl", tun_cfg("gen_MC_lossy_H2.cfg", H=2, sizes=(0, 1, 3, 4), mtu=4, msgs=2, dev=dev_tun, invs=TUN_INVS, props=["AbsRefines"]), "TunImpl lossy H=2 MTU=4"))
         jobs_mc.append(ex.submit(mc, "TunImpl", tun_cfg("gen_MC_lossy_lim.cfg", maxin=2, sizes=(1, 2, 3), mtu=5, msgs=3, modes='{"all"}', dev=dev_tun, invs=TUN_INVS, props=["AbsRefines"]), "TunImpl lossy with a receiver limit"))
@@ -401,6 +405,8 @@ def _run(v, tier, seed):
         if not quick: R("TunImpl", tun_cfg("gen_Reach_IdCollision_step.cfg", idspace=2, firstid=0, sizes=(1, 2), mtu=2, msgs=3, modes='{"all"}', dev=dev_tun, props=["AbsRefines"]), "AbsRefines", "IDSPACE=2, step form")
         R("TunImpl", tun_cfg("gen_Reach_noid.cfg", sizes=(2,), mtu=2, msgs=2, modes='{"all"}', dev=dev_tun + ("noid",), invs=["NeverDeliversUnsent"]), "NeverDeliversUnsent", "acceptance test without the id comparison")
         R("TunImpl", tun_cfg("gen_Reach_nooff.cfg", sizes=(2,), mtu=2, msgs=1, modes='{"all"}', dev=dev_tun + ("nooff",), invs=["NeverDeliversUnsent"]), "NeverDeliversUnsent", "acceptance test without the offset comparison")
+        R("TunImpl", tun_cfg("gen_Reach_srconce.cfg", senders=(1, 2), sizes=(2,), mtu=2, msgs=1, batch=2, modes='{"all"}', dev=dev_tun + ("srconce",), invs=["NeverDeliversUnsent"]), "NeverDeliversUnsent", "source address looked up once per DoInput call")
+        R("MiniTunImpl", mini_cfg("gen_Reach_mini_srconce.cfg", senders=(1, 2), sizes=(20,), mtu=60, msgs=1, batch=2, levels=(0,), modes='{"all"}', dev=dev_mini + ("srconce",), invs=["NeverDeliversUnsent"]), "NeverDeliversUnsent", "mini tunnel: source address looked up once per DoInput call")
         R("TunImpl", tun_cfg("gen_Reach_nokey.cfg", senders=(1, 2), sizes=(2,), mtu=2, msgs=1, modes='{"all"}', dev=dev_tun + ("nokey",), invs=["NeverDeliversUnsent"]), "NeverDeliversUnsent", "one ReceiveState for all sources")
         if not quick: R("TunImpl", tun_cfg("gen_Reach_lossy_exactly_once.cfg", faults='{"Lose"}', sizes=(1,), mtu=2, msgs=2, modes='{"all"}', dev=dev_tun, invs=["PerfectExactlyOnceStrict"]), None, "control: the strict clause 2 is not claimed (and not violated) when the network may lose")
         R("TunImpl",
@@ -426,7 +432,7 @@ def _run(v, tier, seed):
                 if s["behaviours"] != nb: raise vlib.MachineryError("tun replay %s/%s ran %s of %s behaviours" % (tag, sl, s["behaviours"], nb))
                 tot["replays"] += s["behaviours"]; tot["followed"] += s["followed"]; tot["drifted"] += s["drifted"]; tot["steps"] += s["steps"]
                 tot["packets"] += s["packets"]; tot["deliveries"] += s["deliveries"]; tot["compressed"] += s["compressed_packets"]; tot["clause2"] += s["clause2_judged"]
-                tot["split_perfect"] += s["shared_split_packets_perfect"]; tot["split_faulty"] += s["shared_split_packets_faulty"]
+                tot["split_perfect"] += s["shared_split_packets_perfect"]; tot["split_faulty"] += s["shared_split_packets_faulty"]; tot["multi_source"] += s["multi_source_calls"]
                 if len(samples) < 9: samples.append({"kind": "behaviour replayed", "instance": tag, "slave": sl, "steps": smp})
                 for r in rows:
                     if r.get("summary"): continue
@@ -449,7 +455,7 @@ def _run(v, tier, seed):
             judge(tag, results)
 
         ex_notes = []
-        ex_tot = {"runs": 0, "packets": 0, "deliveries": 0, "messages": 0, "clause2_judged": 0, "packets_lost": 0, "packets_duplicated": 0, "compressed_packets": 0, "traces_written": 0, "trace_lines": 0, "known": 0}
+        ex_tot = {"runs": 0, "packets": 0, "deliveries": 0, "messages": 0, "clause2_judged": 0, "packets_lost": 0, "packets_duplicated": 0, "compressed_packets": 0, "traces_written": 0, "trace_lines": 0, "known": 0, "multi_source_calls": 0}
         for f in E:
             rows, r, tr = f.result()
             summ = [x for x in rows if x.get("summary")][0]
@@ -476,6 +482,7 @@ def _run(v, tier, seed):
         n_selftests = sum(f.result() for f in f_self)
     if tot["followed"] == 0: raise vlib.MachineryError("no behaviour could be followed")
     if tot["split_perfect"] == 0 or tot["split_faulty"] == 0: raise vlib.MachineryError("vacuity guard: no replayed behaviour had a packet shared by several fragments with the last Message continuing in the next packet (perfect %d, faulty %d)" % (tot["split_perfect"], tot["split_faulty"]))
+    if tot["multi_source"] == 0 or ex_tot["multi_source_calls"] == 0: raise vlib.MachineryError("vacuity guard: no DoInput() call read packets of several sources (replay %d, random runs %d)" % (tot["multi_source"], ex_tot["multi_source_calls"]))
     if tot["compressed"] + ex_tot["compressed_packets"] == 0: raise vlib.MachineryError("vacuity guard: no deflated mini-tunnel packet was ever on the wire")
     if ex_tot["packets_lost"] == 0 or ex_tot["packets_duplicated"] == 0 or ex_tot["clause2_judged"] == 0: raise vlib.MachineryError("vacuity guard: the random runs had no loss / duplication / perfect run: %s" % ex_tot)
     for i in infos: vlib.log("INFO property=C12 %s: %s" % (i["case"], i["note"]))
@@ -484,7 +491,7 @@ def _run(v, tier, seed):
            "private_state_compared": private_state, "model_check_runs": tot["mc_runs"], "reach_configs": tot["reach"], "corrupted_inputs_rejected": n_selftests,
            "generation_graph_states": tot["gen_states"], "generation_graph_transitions": tot["gen_edges"],
            "behaviours_generated": tot["behaviours"], "behaviour_replays": tot["replays"], "replays_followed_to_the_end": tot["followed"], "replays_drifted": tot["drifted"],
-           "replay_steps": tot["steps"], "replay_packets": tot["packets"], "replay_deliveries_checked": tot["deliveries"], "replay_clause2_judged": tot["clause2"], "replay_packets_shared_and_split_perfect_net": tot["split_perfect"], "replay_packets_shared_and_split_faulty_net": tot["split_faulty"],
+           "replay_steps": tot["steps"], "replay_packets": tot["packets"], "replay_deliveries_checked": tot["deliveries"], "replay_clause2_judged": tot["clause2"], "replay_doinput_calls_reading_several_sources": tot["multi_source"], "random_doinput_calls_reading_several_sources": ex_tot["multi_source_calls"], "replay_packets_shared_and_split_perfect_net": tot["split_perfect"], "replay_packets_shared_and_split_faulty_net": tot["split_faulty"],
            "deflated_packets_on_the_wire": tot["compressed"] + ex_tot["compressed_packets"],
            "random_runs": ex_tot["runs"], "random_messages": ex_tot["messages"], "random_packets": ex_tot["packets"], "random_deliveries_checked": ex_tot["deliveries"],
            "random_packets_lost": ex_tot["packets_lost"], "random_packets_duplicated": ex_tot["packets_duplicated"], "random_perfect_runs_judged_exactly_once": ex_tot["clause2_judged"],
